@@ -1184,6 +1184,25 @@ impl<'a, 'b> G<'a, 'b> {
                 let t = TYPE_NAMES[self.t.pick(4)];
                 self.push(t);
             }
+            2 if self.t.chance(64) => {
+                // a parenthesised union / intersection written with a leading `|` / `&`
+                self.labels.insert("type-leading-token");
+                let op = if self.t.chance(128) { "|" } else { "&" };
+                self.push("(");
+                self.push(op);
+                self.push(" ");
+                let n = 1 + self.t.pick(3);
+                for i in 0..n {
+                    if i > 0 {
+                        self.push(" ");
+                        self.push(op);
+                        self.push(" ");
+                    }
+                    let t = TYPE_NAMES[self.t.pick(4)];
+                    self.push(t);
+                }
+                self.push(")");
+            }
             2 => {
                 self.push("(");
                 self.type_expr(depth);
